@@ -378,6 +378,8 @@ def vU : Nat := 0
 def vA : Nat := 1
 def vI : Nat := 2
 def vG : Nat := 3
+/-- a NUMBER of the `variables` source (`.source.global.n`, a YAML integer): printed in decimal, as written -/
+def vM : Nat := 8
 
 /-- variable numbers of the spellings that hand the variable to a function (`print (x)`, `x | printf "%v"`): they print
 the same text as the plain spellings when the variable exists and `<nil>` instead of `<no value>` when it does not -/
@@ -404,6 +406,7 @@ def placeholder (c : Char) (d : Char := '0') : Option (Piece Char) :=
   let cls := fun (n : Nat) => if d = '3' || d = '4' || d = '6' then vP n else n
   if c = 'U' then some (Piece.var (cls vU)) else if c = 'A' then some (Piece.var (cls vA)) else if c = 'I' then some (Piece.var (cls vI))
   else if c = 'G' || c = 'K' then some (Piece.var (cls vG))
+  else if c = 'M' then some (Piece.var (cls vM))
   else if c = 'L' then some (Piece.lit ['l', 'i', 't']) else if c = 'N' then some (Piece.lit ['4'])
   else if c = 'R' then some (Piece.lit ['7']) else if c = 'S' then some (Piece.lit ['z', 'z', 'z'])
   else if c = 'X' then some (Piece.lit ['U', 'U', 'I', 'D'])
@@ -437,6 +440,23 @@ def parseTmpl (s : String) : T := parseTmplL false [] s.toList
 
 def usesVar (t : T) (n : Nat) : Bool := t.any fun p => match p with | Piece.var m => m == n || m == vP n | _ => false
 
+/-- the index of the preprocessor's mapping `u: source.users[<index>]` (`lib/mp` `calcIndex`): `next` draws from the
+scenario's shared iterator; `last`; a written number `i ≥ 0` (an index beyond the list wraps around: `i mod length`); a
+written negative number `-i` (counted from the end, wrapping: `-i mod length`, made non-negative) -/
+inductive Idx where
+  | next
+  | last
+  | fixed (i : Nat)
+  | neg (i : Nat)
+  deriving Repr, DecidableEq
+
+/-- `calcIndex` for the forms that do not use the iterator, on a list of `len > 0` elements -/
+def fixedIndex (len : Nat) : Idx → Nat
+  | .next => 0
+  | .last => len - 1
+  | .fixed i => i % len
+  | .neg i => (len - i % len) % len
+
 structure CallDef where
   name : String
   call : String
@@ -444,6 +464,8 @@ structure CallDef where
   /-- field name, value kind (`s` | `n` | other token kinds verbatim), template of the value text -/
   payload : List (String × String × T)
   pre : Bool
+  /-- which element of the user list the preprocessor takes (only read when `pre`) -/
+  idx : Idx := .next
   /-- status code demanded by an `assert/response` postprocessor, 0 = none: a call answered otherwise ends the shot -/
   assert : Nat := 0
   deriving Repr
@@ -461,6 +483,8 @@ structure Cfg where
   g : String
   calls : List CallDef
   scns : List ScenDef
+  /-- the numeric variable `.source.global.n` as a decimal text, if the source defines it -/
+  gn : Option String := none
   deriving Repr
 
 /-- shared mutable state of a scenario pool -/
@@ -531,9 +555,23 @@ inductive StepResult where
 token / user id the shot's `auth` step returned (none before it, after a failed one, and inside the `auth` step itself:
 `requestVars[step.Name]` is replaced by an empty map when a step begins), the global constant. A variable that does
 not exist prints as `<no value>` (`<nil>` through `print`). -/
-def mkVars (u : Option String) (sv : ShotVars) (g : String) : Vars Char :=
+def mkVars (u : Option String) (sv : ShotVars) (g : String) (gn : Option String := none) : Vars Char :=
   [(vU, (u.getD noValue).toList), (vA, (sv.a.getD noValue).toList), (vI, (sv.i.getD noValue).toList), (vG, g.toList),
-   (vP vU, (u.getD nilText).toList), (vP vA, (sv.a.getD nilText).toList), (vP vI, (sv.i.getD nilText).toList), (vP vG, g.toList)]
+   (vP vU, (u.getD nilText).toList), (vP vA, (sv.a.getD nilText).toList), (vP vI, (sv.i.getD nilText).toList), (vP vG, g.toList),
+   (vM, (gn.getD noValue).toList), (vP vM, (gn.getD nilText).toList)]
+
+/-- the preprocessor of a step: which user its mapping `u: source.users[<index>]` yields and what it does to the
+iterators. Only `[next]` draws (from the iterator of the last scenario using the call, `iterOwner`); the other forms
+(`calcIndex`: last, a written index, wrapping) leave every iterator alone. No preprocessor: no user. -/
+def drawUser (c : Cfg) (cd : CallDef) (iters : List (String × Nat)) : Option String × List (String × Nat) :=
+  if cd.pre then
+    match cd.idx with
+    | .next =>
+      let owner := iterOwner c cd
+      let drawn := (assocGet iters owner).getD 0
+      (some (c.users.getD (drawn % c.users.length) ""), assocSet iters owner (drawn + 1))
+    | i => (some (c.users.getD (fixedIndex c.users.length i) ""), iters)
+  else (none, iters)
 
 /-- some template of the call (payload or metadata) cannot be parsed or executed -/
 def callBad (cd : CallDef) : Bool :=
@@ -548,13 +586,10 @@ def svFor (cd : CallDef) (sv : ShotVars) : ShotVars := if cd.name == "auth" then
 /-- `shootStep` for gun `gun` on call definition `cd` inside scenario `scn` -/
 def shootStep (v : Variant) (c : Cfg) (gun : Nat) (scn : String) (cd : CallDef) (w : World) (sv : ShotVars) : StepResult :=
   if cd.pre && c.users.isEmpty then .unmodelled "no-users" else
-  -- preprocessor: u = source.users[next]
-  let owner := iterOwner c cd
-  let drawn := (assocGet w.iters owner).getD 0
-  let ui : Option String × List (String × Nat) :=
-    if cd.pre then (some (c.users.getD (drawn % c.users.length) ""), assocSet w.iters owner (drawn + 1)) else (none, w.iters)
+  -- preprocessor: u = source.users[<index>]
+  let ui := drawUser c cd w.iters
   let iters := ui.2
-  let vars : Vars Char := mkVars ui.1 (svFor cd sv) c.g
+  let vars : Vars Char := mkVars ui.1 (svFor cd sv) c.g c.gn
   -- a template that cannot be parsed / executed: `templ.Apply` returns an error after the preprocessor ran; the step
   -- reports a sample with code 0, makes no call and ends the shot; nothing was written (the map is a clone)
   if callBad cd then .failed { w with iters := iters } { calls := [], samples := [sampleText (scn ++ ".t" ++ cd.name) 0] } else
